@@ -1,6 +1,6 @@
 """C41 - exposed values respect cooldown and always end up on the bus.
 
-A real `ExposeSensor` (cooldown in {0,1,5} s, periodic_send in {0,7} s, value type
+A real `ExposeSensor` (cooldown in {0,1,5} s, periodic_send none / shorter than / equal to / longer than the cooldown, value type
 binary / 2-byte float / string) lives in a real, connected XKNX (telegram queue with
 rate_limit in {0,5,20}, task registry, recording stub interface) on the virtual-time
 loop. Histories of `set(value, skip_unchanged)`, *bursts* of 2-4 `set()` calls made
@@ -48,8 +48,8 @@ PROPERTY = "C41"
 LEVEL = "exploration"
 TECHNIQUE = "model-based history testing (bounded exhaustive op sequences + Hypothesis histories incl. back-to-back set() bursts and rate-limited queues) of a real ExposeSensor in a real XKNX on a virtual-time loop; oracle over the recorded outgoing telegram log"
 RULE = (
-    "case = (cooldown in {0,1,5} s, periodic_send in {0,7} s, XKNX rate_limit in {0,5,20}/s, value type binary | temperature | string, history over {set(value, skip_unchanged), burst of 2-4 set() calls without yielding to the loop, GroupValueRead from the bus, initialize_value(value), advance by a gap around the thresholds or below 1/rate}); "
-    "enumerated: all op sequences up to length 3 (quick) / 4 (thorough) over {set A, set B, set A/B with skip_unchanged, read, advance cooldown/2, cooldown, cooldown+1/8} x cooldown {1,5} x periodic {0,7}; "
+    "case = (cooldown in {0,1,5} s, periodic_send none / shorter than / equal to / longer than the cooldown ({0,7}, {0,0.5,1,7}, {0,2,5,7} s), XKNX rate_limit in {0,5,20}/s, value type binary | temperature | string, history over {set(value, skip_unchanged), burst of 2-4 set() calls without yielding to the loop, GroupValueRead from the bus, initialize_value(value), advance by a gap around the thresholds or below 1/rate}); "
+    "enumerated: all op sequences up to length 3 (quick) / 4 (thorough) over {set A, set B, set A/B with skip_unchanged, read, advance cooldown/2, cooldown, cooldown+1/8} x cooldown {1,5} x periodic {0,7} and x (cooldown, periodic) in {(5,2),(5,5),(1,0.5),(1,1)}; "
     "cooldown 0: all sequences up to length 2 (quick) / 3 (thorough, binary values) over single sets, read, an advance and all 2-set bursts over {A,B} x skip flag plus the A,B,A / B,A,B bursts; rate_limit {5,20} x cooldown 0: all sequences up to length 3 (4) over sets, read, advance 1/64 s, advance 1 s; longer histories (<= 14 ops) sampled; "
     "non-trivial = at least two updates of which one falls inside a running cooldown (or cooldown 0), or a read after an update, or an equal-payload set with skip_unchanged; distinct by case"
 )
@@ -58,6 +58,7 @@ LEVEL_NOTE = "Virtual time, single-threaded asyncio, always connected, stub inte
 ASSUMPTIONS = [
     "all generated gaps are dyadic fractions of a second; slack on every deadline 1e-6 s (the rate limiter sleeps 1/rate, which is not dyadic)",
     "'value telegrams caused by updates' = GroupValueWrite telegrams; a write exactly periodic_send after the previous outgoing telegram is taken as a periodic send and a pair containing one is not held against the cooldown clause; responses to reads are not subject to it",
+    "periodic re-send as on the unchanged tree: periodic_send after the last outgoing telegram a tick sends the latest set value (never an older one - judged by S5) as a GroupValueWrite and restarts the cooldown; every outgoing telegram restarts the periodic timer. With periodic_send <= cooldown a pending value therefore reaches the bus with the next periodic tick, before the cooldown would end; such a write is a 'periodic send' for the cooldown-distance clause, while S2 (latest set value last on the bus at update + cooldown) and S5 apply unchanged",
     "with an XKNX rate limit the outgoing queue holds telegrams back: the cooldown-distance clause is not asserted there, 'within one cooldown' becomes 'within one cooldown + (number of telegrams the history can produce + 2)/rate', a read answer may be late but must be the next response and carry the value most recent at the read; initialize_value is not generated together with a rate limit",
     "'value last on the bus' = payload of the last outgoing GroupValueWrite/GroupValueResponse; initialize_value() counts as sent (its documented contract) and as the most recent value; values are compared by encoded payload (two values with equal encoding are 'unchanged')",
     "a read before any value exists needs no answer; reads arrive through the cEMI receive path; the connection stays up (a stub interface cannot refuse frames), no foreign writes to the exposed address",
@@ -93,7 +94,8 @@ def hold_s(case) -> float:
 
 
 def tail_s(case) -> float:
-    return case["cooldown"] + case["periodic"] + 1.0 + 2 * hold_s(case)
+    # long enough for two cooldown periods (starvation of a pending value shows) and a periodic tick
+    return 2 * case["cooldown"] + case["periodic"] + 1.0 + 2 * hold_s(case)
 
 
 def _all_ops(case):
@@ -311,6 +313,8 @@ def classify(case):
     c = case["cooldown"]
     rate = case.get("rate", 0)
     cls = {f"cooldown={c}", f"periodic={case['periodic']}", case["vtype"], f"rate={rate}"}
+    if c and 0 < case["periodic"] <= c:
+        cls.add("periodic<=cooldown")
     _ops, ev, _f, _l, _t = flatten(case)
     ev = [e for e in ev if e["op"] < len(case["ops"])]
     last_send_cause = None
@@ -433,7 +437,7 @@ def _enum_shard(ctx, kind, c, P, rate, vtype, L) -> None:
         ctx.bulk(n, nt, f"enum-{kind}-c{c}-p{P}-r{rate}-L{length}")
 
 
-GAPS = [0.125, 0.5, 0.875, 1.0, 1.125, 2.0, 2.5, 4.875, 5.0, 5.125, 6.875, 7.0, 7.125, 9.0]
+GAPS = [0.125, 0.5, 0.875, 1.0, 1.125, 1.875, 2.0, 2.125, 2.5, 4.0, 4.875, 5.0, 5.125, 6.875, 7.0, 7.125, 9.0]
 SMALL_GAPS = [1 / 64, 1 / 32, 1 / 16, 0.125]
 
 
@@ -442,7 +446,8 @@ def cases(draw):
     vtype = draw(st.sampled_from(["binary", "temperature", "string"]))
     nv = len(VALUES[vtype])
     c = draw(st.sampled_from([0, 0, 1, 5, 5]))
-    P = draw(st.sampled_from([0, 7]))
+    # periodic_send: none / shorter than / equal to / longer than the cooldown
+    P = draw(st.sampled_from({0: [0, 7], 1: [0, 0.5, 1, 7], 5: [0, 2, 5, 7]}[c]))
     rate = draw(st.sampled_from([0, 0, 0, 5, 20]))
     # a tiny value pool makes A,B,A patterns likely
     pool = draw(st.lists(st.integers(0, nv - 1), min_size=2, max_size=2, unique=True)) if draw(st.booleans()) else list(range(nv))
@@ -491,6 +496,7 @@ def _procs(want: int = 8) -> int:
 def run(ctx) -> None:
     L = ctx.n(3, 4)
     jobs = [("cooldown", c, P, 0, vtype, L) for c in (1, 5) for P in (0, 7) for vtype in ("binary", "temperature")]
+    jobs += [("cooldown", c, P, 0, "binary", L) for c, P in ((5, 2), (5, 5), (1, 0.5), (1, 1))]  # periodic_send <= cooldown
     jobs += [("burst", 0, P, 0, vtype, ctx.n(2, 3) if vtype == "binary" else 2) for P in (0, 7) for vtype in ("binary", "temperature")]
     jobs += [("rate", 0, P, rate, "binary", L) for P in (0, 7) for rate in (5, 20)]
     parallel(ctx, _enum_shard, jobs, procs=_procs())
